@@ -43,7 +43,12 @@ RULE = ('random package trees written to a scratch directory (nested packages, m
         'modname_to_modpath, modpath_to_modname, split_modpath, normalize_modpath vs the model on the directory listing; the '
         'FileFinder oracle, the round trip and the split specification are compared eagerly; plus import_module_from_path '
         '(__name__, __file__, marker, sys.path before/after, importable and failing modules), the string pipeline of '
-        'modpath_to_modname on all short strings, several-entry search paths, the excluded points. non-trivial = a dotted name with '
+        'modpath_to_modname on all short strings, several-entry search paths, the excluded points; ALL FOUR hide_init/hide_main '
+        'combinations on every query (names __main__, pkg.__main__, pkg.__init__ for every directory, package or not; __main__.py in '
+        'packages, script directories and the entry itself), calls without optional arguments vs the documented defaults, the default '
+        'sys.path and `exclude`, development-mode link files (egg-link, __editable__ pth/finder), zip archives and missing paths for '
+        'import_module_from_path, the position of the temporary sys.path entry during the import; a watchdog turns a call that does '
+        'not return into a failing input. non-trivial = a dotted name with '
         '>= 2 components or a name that resolves; distinct = distinct (tree, spelling, api, arguments)')
 ASSUMPTIONS = [
     'os.path and importlib behave as on this interpreter (POSIX paths; case-sensitive file system)',
@@ -51,8 +56,36 @@ ASSUMPTIONS = [
     'the scratch directory has no __init__.py in any ancestor (checked: the listing sent to the model includes the ancestors)',
 ]
 
+FLAGS = ((1, 0), (0, 0), (1, 1), (0, 1))      # (hide_init, hide_main)
 SPELLINGS = ['abs', 'abs/', 'rel', './rel', 'rel/', 'link', 'dot', 'empty', 'dotdot']
 KNOWN_A = 'K-C17-a'
+
+
+class Hang(BaseException):
+    """the real code did not return in time (BaseException: not swallowed by the `except Exception` wrappers)"""
+
+
+class deadline(object):
+    def __init__(self, seconds):
+        self.seconds = seconds
+
+    def _fire(self, signum, frame):
+        raise Hang()
+
+    def __enter__(self):
+        import signal
+        self.old = signal.signal(signal.SIGALRM, self._fire)
+        signal.setitimer(signal.ITIMER_REAL, self.seconds)
+
+    def __exit__(self, *a):
+        import signal
+        signal.setitimer(signal.ITIMER_REAL, 0)
+        signal.signal(signal.SIGALRM, self.old)
+        return False
+
+
+TREE_DEADLINE = 90      # seconds for ALL calls on one tree (normally ~0.1 s)
+CASE_DEADLINE = 30
 
 
 def ui():
@@ -135,8 +168,8 @@ def canon_found(found):
     return '%s %s' % (kind, os.path.dirname(origin) if kind == 'pkg' else origin)
 
 
-def canon_expected(found, hi):
-    p = orc.expected_path(found, hi)
+def canon_expected(found, hi, hm=0):
+    p = orc.expected_path(found, hi, hm)
     return 'none' if p is None else 'some ' + p
 
 
@@ -179,6 +212,61 @@ class Acc(object):
         self.tags[k] = self.tags.get(k, 0) + n
 
 
+def defaults_violation(entry, name=None, path=None):
+    """calls without the optional arguments behave as with the documented defaults
+    (hide_init=True, hide_main=False, check=True). -> None | failure dict"""
+    u = ui()
+
+    def call(f, *a, **k):
+        try:
+            r = f(*a, **k)
+        except ValueError as ex:
+            return _verr(ex)
+        except Exception as ex:
+            return 'raise:' + type(ex).__name__
+        return r
+    pairs = []
+    if name is not None:
+        pairs.append(('modname_to_modpath(%r, sys_path=[%r])' % (name, entry), call(u.modname_to_modpath, name, sys_path=[entry]),
+                      call(u.modname_to_modpath, name, hide_init=True, hide_main=False, sys_path=[entry])))
+    if path is not None:
+        pairs.append(('modpath_to_modname(%r)' % path, call(u.modpath_to_modname, path),
+                      call(u.modpath_to_modname, path, hide_init=True, hide_main=False, check=True, relativeto=None)))
+        pairs.append(('split_modpath(%r)' % path, call(u.split_modpath, path), call(u.split_modpath, path, check=True)))
+        pairs.append(('normalize_modpath(%r)' % path, call(u.normalize_modpath, path),
+                      call(u.normalize_modpath, path, hide_init=True, hide_main=False)))
+        if not os.path.exists(path):
+            r = call(u.modpath_to_modname, path)
+            if not (isinstance(r, str) and r.startswith('err ')):
+                return {'api': 'modpath_to_modname(%r)' % path, 'observed': repr(r), 'expected': 'ValueError (the path does not exist)',
+                        'why': 'modpath_to_modname(check=True) accepts a path that does not exist'}
+    for what, got, exp in pairs:
+        if got != exp:
+            return {'api': what, 'observed': repr(got), 'expected': repr(exp), 'why': 'a call without optional arguments differs from the documented defaults'}
+    return None
+
+
+def _flag_roundtrip_violation(name, found, rpath, hi, hm):
+    """the resolved path is a module path, split_modpath accepts it, and modpath_to_modname with the
+    same flags gives the name back (minus a hidden __init__ / in-package __main__). -> None | text"""
+    if not orc.is_module_path(rpath):
+        return 'resolved to %s, which is neither a python file nor a package directory' % rpath
+    sp = real_split(rpath, 1)
+    if not sp.startswith('ok '):
+        return 'split_modpath rejects the resolved path: %s' % sp
+    want = orc.expected_name(name, found, hi, hm)
+    for arg in (rpath, found[1]):
+        back = real_m2n(arg, hi, hm, 1)
+        exp = want
+        if arg == found[1] and not hi and found[0] == 'pkg':
+            exp = name + '.__init__'          # hide_init=False names the __init__ module itself
+        if arg == rpath and not hi and os.path.isdir(rpath):
+            exp = want + '.__init__'
+        if back != 'ok ' + exp:
+            return 'modpath_to_modname(%s, hide_init=%s, hide_main=%s) = %s, expected %s' % (arg, bool(hi), bool(hm), back, exp)
+    return None
+
+
 def _ident(rel):
     comps = rel.split('/')
     last = comps[-1]
@@ -209,19 +297,29 @@ def run_tree(tree, top, rng, acc, quick):
             meta = {'api': 'R', 'spelling': sp, 'name': name}
             case('P:%s:%s' % (enc(abs_entry), enc(name)), canon_found(found), dict(meta, api='P'))
             ntv = ('.' in name) or found is not None
-            combos = ((1, 0), (0, 0), (1, 1), (0, 1)) if (sp == 'abs' or not quick) else ((1, 0), (0, 0))
-            for hi, hm in combos:
+            for hi, hm in FLAGS:
                 r = real_resolve(name, [entry], hi, hm)
                 case('R:%d%d:%s:%s' % (hi, hm, enc(abs_entry), enc(name)), r, dict(meta, hi=hi, hm=hm))
                 acc.count('modname_to_modpath')
                 if ntv:
                     acc.nontriv += 1
-                if not hm:
-                    exp = canon_expected(found, hi)
-                    acc.count('oracle:FileFinder')
-                    if r != exp and len(acc.expect) < 50:
-                        acc.expect.append({'input': dict(meta, hi=hi, hm=0, tree=tree), 'expected': exp, 'impl': r,
-                                           'why': 'modname_to_modpath differs from importlib FileFinder resolved part by part'})
+                exp = canon_expected(found, hi, hm)
+                acc.count('oracle:FileFinder')
+                bad = None
+                if r != exp:
+                    bad = 'modname_to_modpath differs from importlib FileFinder resolved part by part (+ documented hide_init/hide_main folding)'
+                elif found is not None and not root_init:
+                    bad = _flag_roundtrip_violation(name, found, r[5:], hi, hm)
+                    acc.count('roundtrip:flags')
+                if bad and len(acc.expect) < 50:
+                    acc.expect.append({'input': dict(meta, hi=hi, hm=hm, tree=tree), 'expected': exp, 'impl': r, 'why': bad})
+                if found is not None and name.split('.')[-1] in ('__main__', '__init__'):
+                    acc.tag('special:%s:%s:hi=%d,hm=%d' % (name.split('.')[-1], 'in-package' if os.path.isfile(
+                        os.path.join(os.path.dirname(found[1]), '__init__.py')) else 'not-in-package', hi, hm))
+            dv = defaults_violation(entry, name=name)
+            acc.count('oracle:documented-defaults')
+            if dv and len(acc.expect) < 50:
+                acc.expect.append({'input': dict(meta, api='R', tree=tree), 'expected': dv['expected'], 'impl': dv['observed'], 'why': dv['why']})
             # tags (from the oracle and the tree)
             relp = name.replace('.', '/')
             if found is not None:
@@ -250,6 +348,10 @@ def run_tree(tree, top, rng, acc, quick):
     # ---- path APIs
     rels = sorted(tree['files']) + gt.all_dirs(tree)
     extra = [r + 'x' for r in rng.sample(rels, min(3, len(rels)))] + ['', 'nope.py', 'nope/deep.py']
+    for d in gt.all_dirs(tree):
+        for special in ('__init__.py', '__main__.py'):
+            if d + '/' + special not in tree['files'] and rng.random() < 0.5:
+                extra.append(d + '/' + special)        # the file a package would have, absent
     if len(rels) > (24 if quick else 80):
         rels = rng.sample(rels, 24 if quick else 80)
     rels = rels + extra
@@ -295,27 +397,33 @@ def run_tree(tree, top, rng, acc, quick):
                 case('L:%d%d:%s:%s' % (hi, hm, enc(ap), enc(os.path.abspath(relto))), rr, dict(meta, api='Lt', hi=hi, hm=hm))
                 acc.count('modpath_to_modname:relativeto')
             # name -> importlib -> same file (by construction: the file is importable under that name)
-            f = _m2n_importlib_violation(path)
-            if f is not None:
-                acc.count('oracle:name-resolves-back')
-                if f:
-                    acc.expect.append({'input': dict(meta, api='MB', tree=tree), 'expected': f['expected'], 'impl': f['impl'], 'why': f['why']})
+            dv = defaults_violation(entry, path=path)
+            acc.count('oracle:documented-defaults')
+            if dv and len(acc.expect) < 50:
+                acc.expect.append({'input': dict(meta, api='S', tree=tree), 'expected': dv['expected'], 'impl': dv['observed'], 'why': dv['why']})
+            for hi, hm in FLAGS:
+                f = _m2n_importlib_violation(path, hi, hm)
+                if f is not None:
+                    acc.count('oracle:name-resolves-back')
+                    if f and len(acc.expect) < 50:
+                        acc.expect.append({'input': dict(meta, api='MB', hi=hi, hm=hm, tree=tree), 'expected': f['expected'], 'impl': f['impl'], 'why': f['why']})
     os.chdir(top)
     return cases
 
 
-def _m2n_importlib_violation(path):
-    """modpath_to_modname(path) must be a name under which importlib, searching split_modpath(path)[0],
-    finds exactly this file. -> None (not applicable) | {} (holds) | failure dict"""
+def _m2n_importlib_violation(path, hi=1, hm=0):
+    """modpath_to_modname(path, hide_init, hide_main) must be a name under which importlib, searching
+    split_modpath(path)[0], finds exactly this file (or, for a hidden in-package __main__.py, its
+    package). -> None (not applicable) | {} (holds) | failure dict"""
     ap = os.path.abspath(path)
     base = os.path.basename(ap)
     if os.path.isdir(ap):
         if not os.path.isfile(os.path.join(ap, '__init__.py')):
             return None
-        want = ('pkg', os.path.join(ap, '__init__.py'))
+        target = os.path.join(ap, '__init__.py')
         stem = base
     elif os.path.isfile(ap) and base.endswith('.py'):
-        want = ('pkg', ap) if base == '__init__.py' else ('mod', ap)
+        target = ap
         stem = base[:-3]
         if base != '__init__.py' and os.path.isfile(os.path.join(ap[:-3], '__init__.py')):
             return None     # shadowed by a package of the same name: not importable at all
@@ -323,17 +431,30 @@ def _m2n_importlib_violation(path):
         return None
     if '.' in stem or not stem:
         return None
-    name = real_m2n(path, 1, 0, 1)
+    in_pkg = os.path.isfile(os.path.join(os.path.dirname(target), '__init__.py'))
+    if os.path.basename(target) == '__init__.py':
+        want = ('pkg', target) if hi else ('mod', target)
+    elif hm and os.path.basename(target) == '__main__.py' and in_pkg:
+        want = ('pkg', os.path.join(os.path.dirname(target), '__init__.py'))
+        if not hi:
+            return None     # (hide_init=False, hide_main=True) on pkg/__main__.py gives the directory name: same as above
+    else:
+        want = ('mod', target)
+    name = real_m2n(path, hi, hm, 1)
     sp = real_split(path, 1)
     if not (name.startswith('ok ') and sp.startswith('ok ')):
-        return {'expected': 'a module name', 'impl': '%s / %s' % (name, sp), 'why': 'an importable file is rejected'}
-    d = sp[3:].rsplit(' ', 1)[0]
-    if any('.' in c for c in sp[3:].rsplit(' ', 1)[1].split('/')[:-1]):
+        return {'expected': 'a module name', 'impl': '%s / %s' % (name, sp),
+                'why': 'modpath_to_modname(hide_init=%s, hide_main=%s) / split_modpath reject an importable file' % (bool(hi), bool(hm))}
+    d, rel = sp[3:].rsplit(' ', 1)
+    if any('.' in c for c in rel.split('/')[:-1]):
         return None
+    if want[0] == 'pkg' and os.path.dirname(want[1]) == d:
+        return None         # the package directory is the search directory itself: entry-is-package class
     got = orc.ff_resolve(d, name[3:])
     if got != want:
         return {'expected': '%s via importlib from %s' % (want, d), 'impl': 'name %r resolves to %r' % (name[3:], got),
-                'why': 'the name given by modpath_to_modname does not import this file from the directory given by split_modpath'}
+                'why': 'the name given by modpath_to_modname(hide_init=%s, hide_main=%s) does not import this file from the '
+                       'directory given by split_modpath' % (bool(hi), bool(hm))}
     return {}
 
 
@@ -369,7 +490,13 @@ def _shard(args):
             tree = gt.gen_tree(rng, max_depth=4 if quick else 6, width=3, root_init=(rng.random() < 0.12))
             top = os.path.join(scratch, 't%d' % k)
             os.makedirs(top)
-            cases = run_tree(tree, top, rng, acc, quick)
+            try:
+                with deadline(TREE_DEADLINE):
+                    cases = run_tree(tree, top, rng, acc, quick)
+            except Hang:
+                acc.expect.append({'input': {'api': 'HANG', 'tree': tree, 'spelling': 'abs'}, 'expected': 'every call returns',
+                                   'impl': 'no answer within %d s' % TREE_DEADLINE, 'why': 'hang: a call on this tree did not return'})
+                break
             files, dirs = gt.listing(top)
             lines.append('\t'.join(['imp', encl(files), encl(dirs)] + [c['q'] for c in cases]))
             pending.append(cases)
@@ -403,7 +530,7 @@ def _import_case(scratch, uid, rng):
         prefix += c + '/'
     live = comps[hole + 1:] if hole is not None else comps       # packages above the leaf that count
     marker = 'marker-%s' % uid
-    body = {'ok': 'X = %r\n' % marker, 'raises': 'X = %r\nraise ValueError("boom")\n' % marker,
+    body = {'ok': 'import sys\nX = %r\nPATH_AT_IMPORT = list(sys.path)\n' % marker, 'raises': 'X = %r\nraise ValueError("boom")\n' % marker,
             'syntax': 'X = = 1\n', 'missing-import': 'import xv17_does_not_exist_%s\n' % uid}
     if kind in body:
         rel = prefix + leaf + '.py'
@@ -428,7 +555,7 @@ def _import_case(scratch, uid, rng):
         origin = rel
     fails = kind in ('raises', 'syntax', 'missing-import', 'pkg-raises')
     return {'files': files, 'rel': rel, 'name': name, 'origin': origin, 'fails': fails, 'kind': kind,
-            'marker': marker, 'index': rng.choice([-1, -1, 0]), 'spelling': rng.choice(['abs', 'rel'])}
+            'marker': marker, 'index': rng.choice([-1, None, None, 0]), 'spelling': rng.choice(['abs', 'rel'])}
 
 
 def run_import_case(c, scratch):
@@ -444,7 +571,10 @@ def run_import_case(c, scratch):
         os.chdir(scratch)
         path = os.path.join(root, c['rel']) if c['spelling'] == 'abs' else os.path.relpath(os.path.join(root, c['rel']), scratch)
         try:
-            m = ui().import_module_from_path(path, index=c['index'])
+            if c['index'] is None:
+                m = ui().import_module_from_path(path)        # documented default: index=-1 (appended)
+            else:
+                m = ui().import_module_from_path(path, index=c['index'])
             outcome = 'ok'
         except Exception as ex:
             m = None
@@ -462,6 +592,16 @@ def run_import_case(c, scratch):
             want = (c['name'], os.path.join(root, c['origin']), c['marker'])
             if got != want:
                 problem = {'expected': repr(want), 'impl': repr(got), 'why': 'import_module_from_path returned another module'}
+            seen = getattr(m, 'PATH_AT_IMPORT', None)
+            if problem is None and seen is not None:
+                # the directory given by split_modpath sits at the requested position while the module is imported
+                dpath = os.path.join(root, *c['origin'].split('/')[:-(len(c['name'].split('.')) + (1 if c['origin'].endswith('/__init__.py') else 0))])
+                pos = 0 if c['index'] == 0 else len(seen) - 1
+                if len(seen) != len(before) + 1 or os.path.abspath(seen[pos]) != os.path.abspath(dpath):
+                    problem = {'expected': 'sys.path during the import = the old list with %s at position %s' % (dpath, 'first' if pos == 0 else 'last'),
+                               'impl': 'position of the directory: %s; length %d -> %d' % (
+                                   [i for i, x in enumerate(seen) if os.path.abspath(x) == os.path.abspath(dpath)], len(before), len(seen)),
+                               'why': 'the search directory is not inserted at the documented index'}
     finally:
         os.chdir(old)
         sys.path[:] = before
@@ -475,7 +615,68 @@ def run_import_case(c, scratch):
     return problem, outcome
 
 
+def import_misc_cases(scratch, uid):
+    """import_module_from_path: a path that does not exist raises IOError; a module inside a zip archive
+    (`<archive>.zip/<inner path>.py`, also with ':' as separator) is imported from the archive (docstring)."""
+    import zipfile
+    out = []
+
+    def rec(case, got, exp):
+        out.append({'case': case, 'expected': repr(exp), 'impl': repr(got), 'bad': None if got == exp else 'import_module_from_path: %s' % case})
+
+    def attempt(path):
+        import contextlib
+        import io
+        before_mods = set(sys.modules)
+        before = list(sys.path)
+        try:
+            with contextlib.redirect_stdout(io.StringIO()):      # the real code prints its error text
+                m = ui().import_module_from_path(path)
+            r = ('module', getattr(m, '__name__', None), getattr(m, 'X', None))
+        except IOError as ex:
+            r = ('IOError',)
+        except Exception as ex:
+            r = ('raise', type(ex).__name__)
+        finally:
+            for k in set(sys.modules) - before_mods:
+                del sys.modules[k]
+        if list(sys.path) != before:
+            sys.path[:] = before
+            r = r + ('sys.path changed',)
+        return r
+    os.makedirs(scratch, exist_ok=True)
+    rec('missing file', attempt(os.path.join(scratch, 'does-not-exist.py')), ('IOError',))
+    rec('missing file in a missing directory', attempt(os.path.join(scratch, 'nodir', 'x.py')), ('IOError',))
+    rec('missing archive', attempt(os.path.join(scratch, 'does-not-exist.zip', 'a.py')), ('IOError',))
+    zpath = os.path.join(scratch, 'arch%s.zip' % uid)
+    with zipfile.ZipFile(zpath, 'w') as z:
+        z.writestr('folder%s/bar.py' % uid, "X = 'zip-marker-%s'\n" % uid)
+        z.writestr('top%s.py' % uid, "X = 'zip-top-%s'\n" % uid)
+    import warnings
+    with warnings.catch_warnings():
+        warnings.simplefilter('ignore')
+        rec('module in a folder of an archive', attempt(zpath + '/folder%s/bar.py' % uid), ('module', 'folder%s/bar' % uid, 'zip-marker-%s' % uid))
+        rec('archive, colon separator', attempt(zpath + ':folder%s/bar.py' % uid), ('module', 'folder%s/bar' % uid, 'zip-marker-%s' % uid))
+        rec('top-level module of an archive', attempt(zpath + '/top%s.py' % uid), ('module', 'top%s' % uid, 'zip-top-%s' % uid))
+        got = attempt(zpath + '/missing%s.py' % uid)
+        rec('module missing from an existing archive', got[:1] if got[0] in ('raise', 'IOError') else got, ('raise',))
+    return out
+
+
 def import_suite(ctx, corr, n):
+    scratch0 = tempfile.mkdtemp(prefix='xdocverif-')
+    try:
+        for pr in import_misc_cases(scratch0, '%d_%d' % (os.getpid(), ctx.seed)):
+            corr.count('import_module_from_path:missing/zip')
+            corr.nontriv(('impmisc', pr['case']))
+            if pr.get('bad'):
+                corr.expect_fail('eager-oracle:IMPX', {'api': 'IMPX'}, pr['expected'], pr['impl'], pr['bad'])
+    finally:
+        shutil.rmtree(scratch0, ignore_errors=True)
+    import_suite_(ctx, corr, n)
+
+
+def import_suite_(ctx, corr, n):
     rng = ctx.sub_rng('import')
     scratch = tempfile.mkdtemp(prefix='xdocverif-')
     lines, metas = [], []
@@ -555,12 +756,39 @@ def fixed_suites(ctx, corr):
                 qs.append('R:%d0:%s:%s' % (hi, enc(entry), enc(name)))
                 reals.append((name, real_resolve(name, [entry], hi, 0)))
         ans = driver.run_lines(['\t'.join(['imp', encl(files), encl(dirs)] + qs)])[0].split('\t')
+        # directories named __main__.py / __init__.py met by normalize_modpath, split_modpath, modpath_to_modname
+        gt.write_tree(os.path.join(top, 'root'), {'files': {'v/__init__.py': '', 'v/__main__.py/__init__.py': '', 'v/__main__.py/q.py': '',
+                                                             'u/__main__.py/__init__.py': ''}, 'dirs': []})
+        files, dirs = gt.listing(top)
+        for rel in ('v/__main__.py/__init__.py', 'v/__main__.py', 'v/__main__.py/q.py', 'u/__main__.py/__init__.py', 'u/__main__.py',
+                    'w/__init__.py', 'w/__init__.py/__init__.py', 'w/m.py'):
+            path = os.path.join(entry, rel)
+            for hi, hm in FLAGS:
+                qs.append('N:%d%d:%s' % (hi, hm, enc(path)))
+                reals.append((rel, real_norm(path, hi, hm)))
+                qs.append('M:%d%d1:%s' % (hi, hm, enc(path)))
+                reals.append((rel, real_m2n(path, hi, hm, 1)))
+            qs.append('S:1:%s' % enc(path))
+            reals.append((rel, real_split(path, 1)))
+        ans = driver.run_lines(['\t'.join(['imp', encl(files), encl(dirs)] + qs)])[0].split('\t')
         for (name, r), a in zip(reals, ans):
             corr.count('excluded-point:init-directory')
             if decode_answer(a) != r:
                 corr.disagree('model-vs-code:R', {'api': 'R', 'name': name, 'tree': tree, 'spelling': 'abs'}, decode_answer(a), r)
             if name in ('w.m', 'w.k.z') and r.startswith('some ') and orc.ff_resolve(entry, name) is None:
                 corr.tag('excluded-point:init-directory: code resolves %s, regular-package rule finds nothing' % name)
+        # (1b) the default search path (sys_path=None -> sys.path) and the `exclude` argument
+        for problem in default_syspath_cases(scratch, '%d_%d' % (os.getpid(), ctx.seed)):
+            corr.count('default-sys.path/exclude')
+            corr.nontriv(('dsp', problem['case']))
+            if problem.get('bad'):
+                corr.expect_fail('eager-oracle:DSP', {'api': 'DSP'}, problem['expected'], problem['impl'], problem['bad'])
+        # (1c) development-mode link files in a search path entry (outside the model; expectations by construction)
+        for problem in linkfile_cases(os.path.join(scratch, 'links'), '%d_%d' % (os.getpid(), ctx.seed)):
+            corr.count('link-files (egg-link, __editable__ pth/finder)')
+            corr.nontriv(('lnk', problem['case']))
+            if problem.get('bad'):
+                corr.expect_fail('eager-oracle:LNK', {'api': 'LNK'}, problem['expected'], problem['impl'], problem['bad'])
         # (2) several entries, shadowing
         top = os.path.join(scratch, 'multi')
         rng = ctx.sub_rng('multi')
@@ -636,6 +864,149 @@ def _shadowed(entries, name):
     return False
 
 
+def linkfile_cases(scratch, uid):
+    """`<pkg>.egg-link`, `__editable__.<pkg>-<ver>.pth` and `__editable___<pkg>_<ver>_finder.py` inside a search
+    path entry redirect the search to another directory (what `pip install -e` leaves in site-packages)."""
+    u = ui()
+    out = []
+
+    def rec(case, got, exp):
+        out.append({'case': case, 'expected': repr(exp), 'impl': repr(got),
+                    'bad': None if got == exp else 'development-mode link file: %s' % case})
+
+    def target(tag, pkg):
+        t = os.path.join(scratch, 'target_' + tag)
+        gt.write_tree(t, {'files': {pkg + '/__init__.py': '', pkg + '/m.py': 'X=1\n', pkg + '/sub/__init__.py': '',
+                                    pkg + '/nopkg/y.py': ''}, 'dirs': []})
+        return t
+    # egg-link (package name, and the hyphenated distribution name)
+    for tag, pkg, fname in (('egg', 'xv17lk' + uid, 'xv17lk' + uid + '.egg-link'),
+                            ('egghy', 'xv17_lk' + uid, ('xv17_lk' + uid).replace('_', '-') + '.egg-link')):
+        t = target(tag, pkg)
+        e = os.path.join(scratch, 'entry_' + tag)
+        gt.write_tree(e, {'files': {fname: t + '\n.\n', 'other.py': ''}, 'dirs': []})
+        rec(tag + ': module', u.modname_to_modpath(pkg + '.m', sys_path=[e]), os.path.join(t, pkg, 'm.py'))
+        rec(tag + ': package', u.modname_to_modpath(pkg + '.sub', sys_path=[e]), os.path.join(t, pkg, 'sub'))
+        rec(tag + ': chain without init', u.modname_to_modpath(pkg + '.nopkg.y', sys_path=[e]), None)
+        rec(tag + ': other name', u.modname_to_modpath(pkg + 'x', sys_path=[e]), None)
+        rec(tag + ': target excluded', u._syspath_modname_to_modpath(pkg + '.m', sys_path=[e], exclude=[t]), None)
+        e0 = os.path.join(scratch, 'entry0_' + tag)
+        gt.write_tree(e0, {'files': {pkg + '/__init__.py': '', pkg + '/m.py': ''}, 'dirs': []})
+        rec(tag + ': a direct hit in an earlier entry wins', u.modname_to_modpath(pkg + '.m', sys_path=[e0, e]), os.path.join(e0, pkg, 'm.py'))
+        rec(tag + ': the link in an earlier entry wins', u.modname_to_modpath(pkg + '.m', sys_path=[e, e0]), os.path.join(t, pkg, 'm.py'))
+    other = os.path.join(scratch, 'unrelated')
+    os.makedirs(other, exist_ok=True)
+
+    def late_entry(tag, pkg):
+        """an ordinary entry holding the same package plus a module the link target lacks"""
+        e = os.path.join(scratch, 'late_' + tag)
+        gt.write_tree(e, {'files': {pkg + '/__init__.py': '', pkg + '/m.py': '', pkg + '/onlylate.py': ''}, 'dirs': []})
+        return e
+    for tag, pkg, fname in (('egg2', 'xv17lq' + uid, 'xv17lq' + uid + '.egg-link'),):
+        t = target(tag, pkg)
+        e = os.path.join(scratch, 'entry_' + tag)
+        gt.write_tree(e, {'files': {fname: t + '\n.\n'}, 'dirs': []})
+        rec(tag + ': unrelated directory excluded', u._syspath_modname_to_modpath(pkg + '.m', sys_path=[e], exclude=[other]), os.path.join(t, pkg, 'm.py'))
+        late = late_entry(tag, pkg)
+        rec(tag + ': target lacks the module, a later entry has it', u.modname_to_modpath(pkg + '.onlylate', sys_path=[e, late]),
+            os.path.join(late, pkg, 'onlylate.py'))
+    # __editable__ pth (the path is the LAST line of the file)
+    pkg = 'xv17pt' + uid
+    t = target('pth', pkg)
+    e = os.path.join(scratch, 'entry_pth')
+    gt.write_tree(e, {'files': {'__editable__.%s-0.1.0.pth' % pkg: os.path.join(scratch, 'not-this-line') + '\n' + t + '\n'}, 'dirs': []})
+    late = late_entry('pth', pkg)
+    rec('pth: module', u.modname_to_modpath(pkg + '.m', sys_path=[e]), os.path.join(t, pkg, 'm.py'))
+    rec('pth: other name', u.modname_to_modpath(pkg + 'x.m', sys_path=[e]), None)
+    rec('pth: target excluded', u._syspath_modname_to_modpath(pkg + '.m', sys_path=[e], exclude=[t]), None)
+    rec('pth: unrelated directory excluded', u._syspath_modname_to_modpath(pkg + '.m', sys_path=[e], exclude=[other]), os.path.join(t, pkg, 'm.py'))
+    rec('pth: the link in an earlier entry wins', u.modname_to_modpath(pkg + '.m', sys_path=[e, late]), os.path.join(t, pkg, 'm.py'))
+    rec('pth: target lacks the module, a later entry has it', u.modname_to_modpath(pkg + '.onlylate', sys_path=[e, late]),
+        os.path.join(late, pkg, 'onlylate.py'))
+    t2 = target('pth2', pkg)
+    os.remove(os.path.join(t, pkg, 'sub', '__init__.py'))
+    gt.write_tree(e, {'files': {'__editable__.%s-0.2.0.pth' % pkg: t2 + '\n'}, 'dirs': []})
+    rec('pth: two files, the first target lacks the package, the second has it', u.modname_to_modpath(pkg + '.sub', sys_path=[e]),
+        os.path.join(t2, pkg, 'sub'))
+    # __editable__ finder
+    pkg = 'xv17fd' + uid
+    t = target('finder', pkg)
+    e = os.path.join(scratch, 'entry_finder')
+    gt.write_tree(e, {'files': {'__editable___%s_0_1_0_finder.py' % pkg: 'MAPPING = {%r: %r}\n' % (pkg, os.path.join(t, pkg)),
+                                '__editable___zzother_0_1_0_finder.py': 'NOTHING = 1\n'}, 'dirs': []})
+    late = late_entry('finder', pkg)
+    rec('finder: module', u.modname_to_modpath(pkg + '.m', sys_path=[e]), os.path.join(t, pkg, 'm.py'))
+    rec('finder: name not in the mapping', u.modname_to_modpath(pkg + 'x.m', sys_path=[e]), None)
+    rec('finder: target excluded', u._syspath_modname_to_modpath(pkg + '.m', sys_path=[e], exclude=[t]), None)
+    rec('finder: unrelated directory excluded', u._syspath_modname_to_modpath(pkg + '.m', sys_path=[e], exclude=[other]), os.path.join(t, pkg, 'm.py'))
+    rec('finder: the link in an earlier entry wins', u.modname_to_modpath(pkg + '.m', sys_path=[e, late]), os.path.join(t, pkg, 'm.py'))
+    rec('finder: target lacks the module, a later entry has it', u.modname_to_modpath(pkg + '.onlylate', sys_path=[e, late]),
+        os.path.join(late, pkg, 'onlylate.py'))
+    rec('finder: the package itself, the link in an earlier entry wins', u.modname_to_modpath(pkg, sys_path=[e, late]),
+        os.path.join(t, pkg))
+    e2 = os.path.join(scratch, 'entry_finder2')
+    tb = target('finderB', pkg)
+    os.remove(os.path.join(t, pkg, 'sub', '__init__.py'))
+    gt.write_tree(e2, {'files': {'__editable___%s_0_1_0_finder.py' % pkg: 'MAPPING = {%r: %r}\n' % (pkg, os.path.join(t, pkg)),
+                                 '__editable___%s_0_2_0_finder.py' % pkg: 'MAPPING = {%r: %r}\n' % (pkg, os.path.join(tb, pkg))}, 'dirs': []})
+    rec('finder: two files, the first target lacks the package, the second has it', u.modname_to_modpath(pkg + '.sub', sys_path=[e2]),
+        os.path.join(tb, pkg, 'sub'))
+    rec('finder: two files, both hold the module: the first wins', u.modname_to_modpath(pkg + '.m', sys_path=[e2]), os.path.join(t, pkg, 'm.py'))
+    other_pkg = 'xv17zz' + uid
+    late2 = late_entry('finder_other', other_pkg)
+    rec('finder: entry with finders that do not know the name, a later entry has it', u.modname_to_modpath(other_pkg + '.m', sys_path=[e, late2]),
+        os.path.join(late2, other_pkg, 'm.py'))
+    return out
+
+
+def default_syspath_cases(scratch, uid):
+    """sys_path=None means the interpreter's own sys.path (first/last position, '' = cwd); `exclude`
+    removes search directories. Expectations by construction (unique module names)."""
+    u = ui()
+    top = 'xv17d%s' % uid
+    e1 = os.path.join(scratch, 'dsp1')
+    e2 = os.path.join(scratch, 'dsp2')
+    gt.write_tree(e1, {'files': {top + '/__init__.py': '', top + '/sub/__init__.py': '', top + '/sub/m.py': 'X=1\n',
+                                 top + '/__main__.py': ''}, 'dirs': []})
+    gt.write_tree(e2, {'files': {top + '/__init__.py': '', top + '/only2.py': '', top + '_single.py': ''}, 'dirs': []})
+    out = []
+
+    def rec(case, got, exp):
+        out.append({'case': case, 'expected': repr(exp), 'impl': repr(got),
+                    'bad': None if got == exp else 'default sys.path / exclude handling: %s' % case})
+    saved = list(sys.path)
+    old = os.getcwd()
+    try:
+        name = top + '.sub.m'
+        want = os.path.join(e1, top, 'sub', 'm.py')
+        rec('not on sys.path', u.modname_to_modpath(name), None)
+        rec('not on sys.path: importable', u.is_modname_importable(name), False)
+        for pos in ('first', 'last'):
+            sys.path[:] = ([e1] + saved) if pos == 'first' else (saved + [e1])
+            rec('sys.path %s' % pos, u.modname_to_modpath(name), want)
+            rec('sys.path %s hide_main' % pos, u.modname_to_modpath(top + '.__main__', hide_main=True), os.path.join(e1, top))
+            rec('sys.path %s: importable' % pos, u.is_modname_importable(name), True)
+            rec('sys.path %s, excluded' % pos, u._syspath_modname_to_modpath(name, exclude=[e1]), None)
+            rec('sys.path %s, importable, excluded' % pos, u.is_modname_importable(name, exclude=[e1 + '/']), False)
+            rec('sys.path %s, other dir excluded' % pos, u._syspath_modname_to_modpath(name, exclude=[e2]), want)
+        sys.path[:] = saved + [e1, e2]
+        rec('two entries', u.modname_to_modpath(top), os.path.join(e1, top))
+        rec('two entries, first excluded', u._syspath_modname_to_modpath(top, exclude=[e1]), os.path.join(e2, top))
+        rec('two entries, first excluded (explicit sys_path)', u._syspath_modname_to_modpath(top, sys_path=[e1, e2], exclude=[e1]),
+            os.path.join(e2, top))
+        rec('two entries, both excluded', u._syspath_modname_to_modpath(top, sys_path=[e1, e2], exclude=[e2, e1]), None)
+        rec('importable with explicit empty sys_path', u.is_modname_importable(top, sys_path=[]), False)
+        rec('second entry only', u.modname_to_modpath(top + '_single'), os.path.join(e2, top + '_single.py'))
+        sys.path[:] = saved + ['']
+        os.chdir(e1)
+        got = u.modname_to_modpath(name)
+        rec("'' on sys.path means cwd", None if got is None else os.path.abspath(got), want)
+    finally:
+        os.chdir(old)
+        sys.path[:] = saved
+    return out
+
+
 def _touches_namespace(entries, name):
     """some prefix of the name is a bare directory in some entry (then namespace portions play a role)"""
     parts = name.split('.')
@@ -645,6 +1016,18 @@ def _touches_namespace(entries, name):
             if os.path.isdir(d) and not os.path.isfile(os.path.join(d, '__init__.py')):
                 return True
     return False
+
+
+SUITE_DEADLINE = 240
+
+
+def _run_suite(label, ctx, corr):
+    if label == 'import':
+        import_suite(ctx, corr, 60 if ctx.quick else 400)
+    elif label == 'rel2name':
+        rel2name_suite(ctx, corr, 5 if ctx.quick else 6)
+    else:
+        fixed_suites(ctx, corr)
 
 
 # ------------------------------------------------------------------ correspondence
@@ -665,9 +1048,13 @@ def correspondence(ctx, corr):
             corr.disagree(suite, inp, m, r)
         for e in acc.expect:
             corr.expect_fail('eager-oracle:' + e['input']['api'], e['input'], e['expected'], e['impl'], e['why'])
-    import_suite(ctx, corr, 60 if ctx.quick else 400)
-    rel2name_suite(ctx, corr, 5 if ctx.quick else 6)
-    fixed_suites(ctx, corr)
+    for label in ('import', 'rel2name', 'fixed'):
+        try:
+            with deadline(SUITE_DEADLINE):
+                _run_suite(label, ctx, corr)
+        except Hang:
+            corr.expect_fail('hang', {'api': 'SUITE', 'suite': label}, 'every call returns', 'no answer within %d s' % SUITE_DEADLINE,
+                             'hang: a call of the %s suite did not return' % label)
     corr.sample({'op': 'imp', 'note': 'one line per tree: listing (absolute files, dirs, ancestors) + queries R/P/S/M/N'})
 
 
@@ -680,25 +1067,44 @@ def eval_case(inp, top):
     entry, cwd = spell(inp.get('spelling', 'abs'), top)
     os.chdir(cwd)
     root_init = os.path.exists(os.path.join(root, '__init__.py'))
+    if api == 'HANG':
+        rng = random.Random(0)
+        for name in gt.candidate_names(inp['tree'], rng, limit=1000):
+            f = eval_case(dict(inp, api='R', name=name), top)
+            if f:
+                return f
+        for rel in sorted(inp['tree']['files']) + gt.all_dirs(inp['tree']):
+            f = eval_case(dict(inp, api='S', rel=rel), top)
+            if f:
+                return f
+        return None
     if api in ('R', 'P', 'RT'):
         name = inp['name']
         found = orc.ff_resolve(entry, name)
-        for hi in ((inp['hi'],) if 'hi' in inp and api == 'R' else (1, 0)):
-            r = real_resolve(name, [entry], hi, 0)
-            exp = canon_expected(found, hi)
+        for hi, hm in FLAGS:
+            r = real_resolve(name, [entry], hi, hm)
+            exp = canon_expected(found, hi, hm)
             if r != exp:
-                return {'api': 'modname_to_modpath(%r, hide_init=%s, sys_path=[%r])' % (name, bool(hi), entry),
+                return {'api': 'modname_to_modpath(%r, hide_init=%s, hide_main=%s, sys_path=[%r])' % (name, bool(hi), bool(hm), entry),
                         'observed': r, 'expected_by_importlib': exp}
+            if found is not None and not root_init:
+                bad = _flag_roundtrip_violation(name, found, r[5:], hi, hm)
+                if bad:
+                    return {'api': 'modname_to_modpath(%r, hide_init=%s, hide_main=%s, sys_path=[%r]) and back' % (name, bool(hi), bool(hm), entry),
+                            'observed': r, 'why': bad}
         r10 = real_resolve(name, [entry], 1, 0)
         if r10.startswith('some ') and not root_init and name.split('.')[-1] != '__init__':
             back = real_m2n(r10[5:], 1, 0, 1)
             if back != 'ok ' + name:
                 return {'api': 'modpath_to_modname(modname_to_modpath(%r, sys_path=[%r]))' % (name, entry),
                         'observed': back, 'expected': 'ok ' + name}
-        return None
+        return defaults_violation(entry, name=name)
     rel = inp.get('rel', '')
     path = os.path.join(entry, rel) if rel else (entry or '.')
     ap = os.path.abspath(path)
+    dv = defaults_violation(entry, path=path)
+    if dv:
+        return dv
     rs = real_split(path, 1)
     should_fail = (not os.path.exists(ap)) or (os.path.isdir(ap) and not os.path.exists(os.path.join(ap, '__init__.py')))
     bad = None
@@ -709,13 +1115,25 @@ def eval_case(inp, top):
         bad = 'rejected an existing module path'
     if bad:
         return {'api': 'split_modpath(%r)' % path, 'observed': rs, 'expected': 'split specification', 'why': bad}
-    f = _m2n_importlib_violation(path)
-    if f:
-        return dict(f, api='modpath_to_modname(%r)' % path)
+    for hi, hm in FLAGS:
+        f = _m2n_importlib_violation(path, hi, hm)
+        if f:
+            return dict(f, api='modpath_to_modname(%r, hide_init=%s, hide_main=%s)' % (path, bool(hi), bool(hm)))
     return None
 
 
 def check_case(inp):
+    """check_case_ with a watchdog: a call that does not return is a failure"""
+    limit = SUITE_DEADLINE if inp.get('api') == 'SUITE' else CASE_DEADLINE
+    try:
+        with deadline(limit):
+            return check_case_(inp)
+    except Hang:
+        return {'api': 'util_import on this input', 'observed': 'no answer within %d s' % limit, 'hang': True,
+                'expected': 'every call returns'}
+
+
+def check_case_(inp):
     """rebuilds the tree of a recorded input in a fresh scratch directory and evaluates the PROPERTY on
     the real code with the independent oracles only. -> failure dict or None"""
     api = inp.get('api')
@@ -727,6 +1145,30 @@ def check_case(inp):
         if api == 'IMP':
             problem, outcome = run_import_case(inp['case'], scratch)
             return problem
+        if api == 'SUITE':
+            from .. import core
+            c2 = core.Corr()
+            _run_suite(inp['suite'], core.Ctx('C17', 'quick', 0), c2)     # under the watchdog of check_case
+            for e in c2.expect_failures:
+                return {'api': 'suite ' + inp['suite'], 'observed': e['impl'], 'expected': e['expected'], 'why': e['why']}
+            return None
+        if api == 'IMPX':
+            for pr in import_misc_cases(os.path.join(scratch, 'impx'), 'r%d' % os.getpid()):
+                if pr.get('bad'):
+                    return {'api': 'import_module_from_path', 'observed': pr['impl'], 'expected': pr['expected'], 'why': pr['bad']}
+            return None
+        if api == 'LNK':
+            for pr in linkfile_cases(os.path.join(scratch, 'links'), 'r%d' % os.getpid()):
+                if pr.get('bad'):
+                    return {'api': 'modname_to_modpath through a development-mode link file', 'observed': pr['impl'],
+                            'expected': pr['expected'], 'why': pr['bad']}
+            return None
+        if api == 'DSP':
+            for pr in default_syspath_cases(scratch, 'r%d' % os.getpid()):
+                if pr.get('bad'):
+                    return {'api': 'modname_to_modpath / _syspath_modname_to_modpath with the default sys.path or exclude',
+                            'observed': pr['impl'], 'expected': pr['expected'], 'why': pr['bad']}
+            return None
         if api == 'Rmulti':
             ents = []
             for k, tr in enumerate(inp['trees']):
@@ -752,6 +1194,8 @@ def check_case(inp):
 
 
 def _shrink_tree(inp):
+    if inp.get('api') == 'HANG':
+        return inp
     if 'trees' in inp:
         trees = [dict(t) for t in inp['trees']]
         for k in range(len(trees)):
@@ -835,6 +1279,8 @@ def search(ctx, corr, broken):
     seen = set()
     # the eagerly recorded expectation failures become replay files as they are: shrink the first ones in place
     for e in corr.expect_failures[:5]:
+        if str(e.get('why', '')).startswith('hang'):
+            continue
         try:
             small = _shrink_tree(e['input'])
             if small is not e['input'] and check_case(small):
@@ -850,8 +1296,8 @@ def search(ctx, corr, broken):
             ctx.note('check_case raised %r' % (ex,))
             f = None
         if f:
-            small = _shrink_tree(inp)
-            f2 = check_case(small) or f
+            small = inp if f.get('hang') else _shrink_tree(inp)
+            f2 = f if f.get('hang') else (check_case(small) or f)
             key = repr(sorted(small.get('tree', {}).get('files', {}))) + repr(small.get('trees')) + small.get('name', '') + small.get('rel', '') + str(small.get('api'))
             if key not in seen:
                 seen.add(key)
